@@ -20,7 +20,7 @@ def tx (inTx : Bool) (op : Op) (now : Int) (db : DB) : Res :=
   | .strGet k => strGet db k now
   | .strGetMany ks => strGetMany db ks now
   | .strIncr k d => strIncr db k d now
-  | .strIncrFloat _ _ => .err .outOfDomain db
+  | .strIncrFloat k d => strIncrFloat db k d now
   | .strSet k v => strSet db k v none now
   | .strSetExpires k v ttl => strSetExpires db k v ttl now
   | .strSetMany items => strSetMany db items now
@@ -76,7 +76,7 @@ def tx (inTx : Bool) (op : Op) (now : Int) (db : DB) : Res :=
   | .hashGet k f => hashGet db k f now
   | .hashGetMany k fs => hashGetMany db k fs now
   | .hashIncr k f d => hashIncr db k f d now
-  | .hashIncrFloat _ _ _ => .err .outOfDomain db
+  | .hashIncrFloat k f d => hashIncrFloat db k f d now
   | .hashItems k => hashItems db k now
   | .hashLen k => hashLen db k now
   | .hashScan k c p n => hashScan db k c p n now
